@@ -137,3 +137,39 @@ pub fn vapply(opts: &ConfigOptions, config: &mut ConfigFile) -> (r: RusticResult
 pub fn save_config(repo: &VRepo, new_config: ConfigFile, key: &VKey) -> (r: RusticResult<()>)
     requires accepted(new_config),
 { unimplemented!() }
+
+// ---- ChunkIter::from_config: an accepted configuration always yields a well-formed chunker (C18 -> C06) ----
+// what ConfigOptions::apply guarantees about the chunker settings of every configuration it accepts
+pub open spec fn chunker_config_ok(c: ConfigFile) -> bool {
+    &&& (c.eff_chunker() is Rabin ==> rabin_params_ok(c.eff_chunk_size(), c.eff_chunk_min_size(), c.eff_chunk_max_size()))
+    &&& (c.eff_chunker() is FixedSize ==> c.eff_chunk_size() >= 1)
+}
+impl ConfigFile {
+    // hex parse of the stored polynomial (u64::from_str_radix): uninterpreted
+    pub uninterp spec fn poly_ok(&self) -> bool;
+    #[verifier::external_body]
+    pub fn poly(&self) -> (r: RusticResult<u64>) ensures r is Ok <==> self.poly_ok(), { unimplemented!() }
+}
+pub struct Rabin64 { pub _opaque: u64 }
+impl Rabin64 {
+    #[verifier::external_body]
+    pub fn new_with_polynom(window_size_nb_bits: u32, p: &u64) -> Rabin64 { unimplemented!() }
+}
+// the two chunkers with the contracts PROVED for them under C06 (rabin_new, fixed_new), restated here as stubs
+pub struct RabinChunkIter<R> { pub size: usize, pub min_size: usize, pub max_size: usize, pub reader: R }
+impl<R> RabinChunkIter<R> {
+    #[verifier::external_body]
+    pub fn new(rabin: Rabin64, chunk_size: usize, chunk_min_size: usize, chunk_max_size: usize, reader: R, size_hint: usize) -> (r: RusticResult<Self>)
+        ensures r.is_ok() <==> rabin_params_ok(chunk_size, chunk_min_size, chunk_max_size),
+                r matches Ok(c) ==> c.size == chunk_size && c.min_size == chunk_min_size && c.max_size == chunk_max_size && c.reader == reader,
+    { unimplemented!() }
+}
+pub struct FixedSizeChunkIter<R> { pub size: usize, pub reader: R }
+impl<R> FixedSizeChunkIter<R> {
+    // OBLIGATION at the call site: the fixed-size chunker is well formed only for a positive size (C06: wf needs 1 <= size)
+    #[verifier::external_body]
+    pub fn new(size: usize, reader: R, size_hint: usize) -> (c: Self)
+        requires size >= 1,
+        ensures c.size == size && c.reader == reader,
+    { unimplemented!() }
+}
